@@ -17,12 +17,14 @@ def run(ctx):
     known = load_known("C04")
     results, states, trans, nvec = [], 0, 0, 0
     samples = []
-    for u in ("args", "elts", "stmts"):
-        vecs, subj, nsub = fr.universe_vectors(ctx, u, bounds, "C04")
+    for u in ("args", "elts", "stmts", "multi"):
+        vecs, subj, nsub = fr.universe_vectors(ctx, u, bounds if u != "multi" else dict(maxargs=2, maxlist=4 if quick else 5), "C04")
         nvec += len(vecs)
         res = fr.replay_and_judge(ctx, u, vecs, subj, shards=16)
         results += res
         samples.append(dict(universe=u, patch=res[0][0]["patch"], nsubjects=nsub, sample_output=res[0][0]["got"][:400]))
+    inter = [v for v in fr.text_vectors(ctx, "corpus/inter/vectors.json", "C04") if "..." in v.get("note", "") or True]
+    results += fr.replay_and_judge(ctx, "inter", inter, None, shards=8)
     st = fr.classify(ctx, results, known)
     for r in ctx.tlc_runs:
         if r["name"].startswith("mc-"):
